@@ -124,6 +124,70 @@ PROPS = {
                 "that agrees on R is synthesised); meaning inside/outside R on region environments; every call under catch_unwind; non-trivial = distinct op case",
         "trusted": [], "assumptions": [],
     },
+    "C10": {
+        "lean_targets": ["Pep508.Theorems.C10"],
+        "theorems": ["Pep508.C10.python_version_sem", "Pep508.C10.ne_is_not_eq", "Pep508.C10.neStar_is_not_eqStar", "Pep508.C10.notIn_is_not_in",
+                     "Pep508.C10.python_version_in_sem", "Pep508.C10.python_version_wf", "Pep508.mem_releaseSpecToRange", "Pep508.specSem_normalize",
+                     "Pep508.Ranges.mem_union", "Pep508.Ranges.mem_complement", "Pep508.eval_rangeNode"],
+        "suites": [{"name": "pyver", "args": ["C10"]}],
+        "rule": "all 10 operator forms x 29 literals (1-4 release segments, trailing zeros, pre/post/dev/epoch/local decorations) for python_version, each PEP 440-valid "
+                "combination: the typed expression's dump is compared with the model; it is evaluated on a dense grid X in {2,3,4}, Y in 0..13, Z in {0,1,9} against PEP 440 "
+                "release comparison of X.Y written from the PEP; != vs == and not in vs in are compared as markers for ALL literals; both operand orders and the parsed text must "
+                "equal the typed expression; in/not-in lists (fixed and random); combine/cancel identities with python_full_version; non-trivial = expressions that are "
+                "neither constantly true nor false on the grid",
+        "trusted": ["pep440_rs parses the literal; only its release segments reach the model"], "assumptions": [],
+    },
+    "C01": {
+        "lean_targets": ["Pep508.Theorems.C01", "Pep508.Theorems.C10"],
+        "theorems": ["Pep508.C01.expr_version", "Pep508.C01.expr_version_in", "Pep508.C01.expr_string", "Pep508.C01.expr_in", "Pep508.C01.expr_not_in",
+                     "Pep508.C01.expr_contains", "Pep508.C01.expr_not_contains", "Pep508.C01.expr_extra", "Pep508.C01.expr_wf", "Pep508.C01.skeleton",
+                     "Pep508.C01.parse_total", "Pep508.C01.inverted_string", "Pep508.C10.python_version_sem"],
+        "suites": [{"name": "pyver", "args": ["C01"]}, {"name": "mparse", "args": ["C01"]}],
+        "rule": "(1) every operator form x literal for the three version keys on the dense interpreter grid against PEP 440 written from the PEP, dumps compared with the model; "
+                "(2) random marker ASTs (version / in-list / string / substring in both orders / extra atoms, deprecated spellings, and/or to depth 3) are rendered with random "
+                "layouts (optional whitespace incl. Unicode spaces, none between and/or and a parenthesis or quote, redundant parentheses, either quote style, inverted "
+                "operands), parsed in a worker process, compared with the Lean parser model (dump, warning kinds, error spans) and with the marker built from the AST through "
+                "the typed API; evaluate / evaluate_reporter / evaluate_collect_warnings / evaluate_optional_environment are compared with an independent evaluator of the "
+                "AST on region environments; non-trivial = distinct accepted texts",
+        "trusted": ["Version / VersionPattern parsing (pep440_rs) enters the model as a per-case table; char::is_alphabetic likewise"],
+        "assumptions": ["environments are final releases with python_version = major.minor of python_full_version (the property's quantifier)"],
+    },
+    "C06": {
+        "lean_targets": ["Pep508.Theorems.C06"],
+        "theorems": ["Pep508.C06.marker_tree_never_panics", "Pep508.C06.marker_tree_err_span", "Pep508.C06.marker_tree_err_sliceable",
+                     "Pep508.C06.marker_expression_never_panics", "Pep508.C06.marker_expression_err_span", "Pep508.C06.take_while_sliceable",
+                     "Pep508.parseMarkers_total", "Pep508.descentOK", "Pep508.Cursor.takeWhile_slice"],
+        "suites": [{"name": "mparse", "args": ["C06"]}, {"name": "req", "args": ["C06"]}],
+        "rule": "marker texts: the full operand-kind x operator x operand-kind table, derivations x layouts, and hostile mutations (multi-byte characters at token boundaries, "
+                "U+3000/U+0085 whitespace, NUL, lone quotes, truncations) through MarkerTree::parse_reporter and MarkerExpression::parse_reporter; requirement texts: derivations "
+                "x layouts and hostile mutations of seeds that exercise every scanner (names/extras with trailing punctuation, brackets, URLs, specifiers) through "
+                "Requirement::parse_reporter / from_str and Extras::parse; every call runs in a worker process under catch_unwind followed by a liveness probe (a poisoned "
+                "interner is itself reported), every error is formatted with Display and its span start checked for a char boundary; outcomes (ok dump / error class+span / panic) "
+                "are compared with the Lean parser models; non-trivial = distinct operand-kind/operator classes and texts",
+        "trusted": ["the requirement parser model (ReqParse.lean) is tied by correspondence only; its totality is not yet a Lean theorem", "unnamed requirements: C19"],
+        "assumptions": ["unbounded parenthesis nesting exhausts the Rust stack; not claimed (the model's fuel is proved sufficient, the stack is not modelled)"],
+    },
+    "C17": {
+        "lean_targets": ["Pep508.Theorems.C17"],
+        "theorems": ["Pep508.C17.reported_and_dropped", "Pep508.C17.never_silently", "Pep508.C17.version_kept_quiet", "Pep508.C17.chain_skips_dropped",
+                     "Pep508.C17.chain_first_kept", "Pep508.dispatch_strKey_quoted", "Pep508.dispatch_quoted_strKey", "Pep508.dispatch_extra_valid", "Pep508.dispatch_extra_invalid"],
+        "suites": [{"name": "mparse", "args": ["C17"]}],
+        "rule": "the complete table {version key, string key, extra, quoted literal} x 11 operators x the same four kinds, several literals per kind (valid/invalid versions, "
+                "wildcards, lists, local versions, valid/invalid extra names), both as a lone expression and inserted into `os_name == 'a' and ...`; the expression, the warning "
+                "kinds and the surrounding marker are compared with the Lean dispatch model and with the property text (reported with the matching kind and dropped; meaningful "
+                "comparisons silent except invalid extra names); plus hostile texts; non-trivial = distinct (kind, operator, kind) classes",
+        "trusted": ["that evaluation-time warning collection does not change results is checked by the C01 suite (four entry points)"], "assumptions": [],
+    },
+    "C07": {
+        "lean_targets": ["Pep508.Theorems.C06", "Pep508.Theorems.C17"],
+        "theorems": ["Pep508.C06.marker_tree_never_panics", "Pep508.parseMarkers_total", "Pep508.C17.chain_skips_dropped"],
+        "suites": [{"name": "req", "args": ["C07"]}, {"name": "mparse", "args": ["C07"]}],
+        "rule": "grammar derivations (name x optional extras x none | bare specifiers | parenthesised specifiers | @ URL x optional marker) over pools of names, extras, PEP 440 "
+                "specifiers, URLs and marker ASTs, each rendered with two random whitespace layouts; accepted, components compared with independently computed expectations "
+                "(normalized name, extras in order, specifier set via pep440_rs, URL via url after variable expansion, marker built from the AST), the two layouts must agree; "
+                "every outcome is compared with the Lean requirement-parser model (slices handed to the external parsers are re-parsed by the real crates); non-trivial = distinct texts",
+        "trusted": ["PEP 440 specifier and URL grammars are external (pep440_rs, url)"], "assumptions": [],
+    },
 }
 
 NOT_APPLICABLE = {}
@@ -131,6 +195,40 @@ NOT_APPLICABLE = {}
 _NOTE = ("Trusted: Lean 4.33 kernel (+ propext, Classical.choice, Quot.sound, audited per theorem); the hand-written model is tied to the code by "
          "differential correspondence on generated cases (sampled, not proved); ")
 MANIFEST_TEXT = {
+    "C10": {
+        "technique": "Lean 4 theorem: the diagram of `python_version OP V` evaluates as PEP 440 release comparison of X.Y (all operators, all literals outside the carve-out), "
+                     "negation clauses as structural equalities + dense-grid oracle and dump correspondence",
+        "text": "eval_expression_pyVer over normalize_specifier / python_version_to_full_version / release_specifier_to_range / from_range with a specification written from PEP 440 "
+                "(cmpRel, prefixMatch); != / not in are exact complements for all literals; in-lists; well-formedness of every expression diagram (so C02/C03 give combine/cancel).",
+        "note": _NOTE + "the pinned carve-out (wildcard / in-list member with > 2 segments) is excluded exactly as the property states; decorations never reach the model (release-only).",
+    },
+    "C01": {
+        "technique": "Lean 4 theorems per expression form (PEP 440 / string order / substring / extra) + pointwise and/or (C02) + parser totality and dispatch inversion; "
+                     "derivation x layout oracle with an independent AST evaluator for the text level",
+        "text": "Each comparison form means what the PEPs say for all literals and environments; and/or skeletons are boolean (skeleton); the parser is total and inverts operands "
+                "correctly. The clause 'every layout of a derivation parses to the derivation's marker' is decided by the differential parser model + oracle, not by a Lean theorem.",
+        "note": _NOTE + "partial at the text level: layout-independence is correspondence + oracle; pep440 literal parsing is external.",
+    },
+    "C06": {
+        "technique": "Lean 4 theorem: the marker parsers never reach a panic site for any Unicode input and any behaviour of the external parsers (cursor invariant, fuel bound), "
+                     "error spans start on char boundaries; requirement-level parsers by differential model + hostile-input oracle in worker processes",
+        "text": "parseMarkers_never_panics / parseExpression_never_panics, error-span boundary theorems and the cursor slicing lemmas for all inputs; the requirement / extras parsers "
+                "are modelled (ReqParse.lean, with explicit panic sites) and compared on hostile inputs, every error is rendered, every panic / poisoned lock is reported.",
+        "note": _NOTE + "partial: totality of the requirement-level model is not yet proved in Lean; stack exhaustion on unbounded nesting is outside the model.",
+    },
+    "C17": {
+        "technique": "Lean 4 theorems on the typed dispatch (for every behaviour of the external parsers) and the chain builder + exhaustive table correspondence",
+        "text": "reported_and_dropped / never_silently / kept-comparisons-are-quiet / invalid extra names reported and kept / chains skip dropped operands; the full "
+                "kind x operator x kind table is run through the real parser and compared.",
+        "note": _NOTE + "reporter independence: the reporter is write-only in the model; evaluation-time collectors are compared by the C01 suite.",
+    },
+    "C07": {
+        "technique": "differential Lean model of the requirement parser (every slice handed to pep440_rs / url re-parsed by the real crates) + derivation x layout oracle; "
+                     "marker part backed by the parser totality and chain theorems",
+        "text": "Derivations of the PEP 508 grammar x whitespace layouts are accepted with exactly the derivation's components; outcomes match the Lean model of "
+                "parse_name / parse_extras / specifier scans / parse_url / marker hand-off including error spans. No Lean theorem yet states acceptance of all derivations.",
+        "note": _NOTE + "partial: the acceptance theorem (parse (render d) = components d) is not proved; `===` inside markers is a known finding (K2).",
+    },
     "C12": {
         "technique": "Lean 4 theorems: complexify = AND with the range marker (meaning for all bounds; identity of diagrams via the canonicity theorem), simplify agrees inside R, "
                      "both preserve well-formedness and cannot hit their unwrap/assert sites + one-step correspondence and identity oracles",
